@@ -144,6 +144,8 @@ type Exec struct {
 	rawFuncs  map[string]string // raw SMT functions usable in contracts: name -> result type
 	mods      map[*ssa.Function]*modSet
 	closures  map[string]*closureInfo
+	batchSeq  int
+	known     map[string]string // heap version "|" reference -> term stored there last
 	externTypes map[string][]types.Type
 	callOrd   map[string]int
 	reveal    map[string]bool
@@ -182,6 +184,7 @@ type Obligation struct {
 	Pos     string
 	Prelude *string
 	Cover   bool   // reachability query: the path condition itself must not be unsat
+	Batch   int    // ensures clauses checked at the same return share a batch: tried as one conjunction first
 	Result  string // unsat, sat, unknown, timeout
 	Backend string
 	Seconds float64
@@ -444,6 +447,9 @@ func (x *Exec) loadLoc(st *State, l *Loc) Val {
 		name, sort, rest, ct := x.containerHeap(st, l)
 		h := x.heap(st, name, sort)
 		term, ty := x.selectPath(ct, fmt.Sprintf("(select %s %s)", h, l.Ref), rest)
+		if kt, ok := x.known[h+"|"+l.Ref]; ok && len(rest) == 0 {
+			term = kt // the value stored last into this very heap version at this reference
+		}
 		v := Val{T: ty, Term: term}
 		x.assumeLoaded(st, v)
 		return v
@@ -545,6 +551,10 @@ func (x *Exec) storeLoc(st *State, l *Loc, v Val) {
 			nv = x.updatePath(ct, fmt.Sprintf("(select %s %s)", h, l.Ref), rest, term)
 		}
 		x.setHeap(st, name, sort, fmt.Sprintf("(store %s %s %s)", h, l.Ref, nv))
+		if len(rest) == 0 {
+			// remembered for syntactic read-back (devirtualisation needs the boxed value as written)
+			x.known[st.heaps[name]+"|"+l.Ref] = nv
+		}
 		return
 	case locElem:
 		term, ok := x.termOf(st, v)
